@@ -93,7 +93,7 @@ if rp.exists():
     block("seedregress", body)
 
 # per-round summary of the seeded defects
-rounds = {1: (1, 2), 2: (3, 4), 3: (5, 6), 4: (7, 8), 5: (9, 10)}
+rounds = {1: (1, 2), 2: (3, 4), 3: (5, 6), 4: (7, 8), 5: (9, 10), 6: (11, 12)}
 rows = ["| round | seeded | caught at once (concrete) | first only `no-failing-input-found` / wrong reason | missed at first | after strengthening |", "|---|---|---|---|---|---|"]
 allm = {}
 for f in sorted(glob.glob(str(V / "seeded" / "*" / "meta.json"))):
